@@ -6,7 +6,6 @@ import (
 	"bufio"
 	"compress/flate"
 	"context"
-	"crypto/rand"
 	"encoding/binary"
 	"errors"
 	"fmt"
@@ -282,7 +281,7 @@ func (c *Conn) writeFrame(ctx context.Context, fin bool, flate bool, opcode opco
 
 	if c.client {
 		c.writeHeader.masked = true
-		_, err = io.ReadFull(rand.Reader, c.writeHeaderBuf[:4])
+		_, err = io.ReadFull(randReader(), c.writeHeaderBuf[:4])
 		if err != nil {
 			return 0, fmt.Errorf("failed to generate masking key: %w", err)
 		}
